@@ -7,7 +7,7 @@ use crate::report::{Ctx, Real};
 use crate::rng::ScriptedRng;
 use crate::wire::{self, KpD, PkD};
 use bls12_381::{pairing, G1Affine, G2Affine, G2Projective, Scalar};
-use ff::Field;
+use ff::Field as _;
 use rand::Rng;
 use serde_json::json;
 use zkchannels_crypto::pointcheval_sanders::{KeyPair, PublicKey, Signature};
@@ -245,6 +245,45 @@ fn one_case<const N: usize>(ctx: &mut Ctx, idx: usize) {
     }
 }
 
+/// degenerate randomness forced deterministically: r = 0 in randomize and blind_and_randomize, u = 0
+fn degenerate_case<const N: usize>(ctx: &mut Ctx, idx: usize) {
+    if !ctx.begin_case(idx, &format!("ps-degenerate-N{}", N)) {
+        return;
+    }
+    let book = ctx.book.clone();
+    let (kp, kpd) = des_keypair::<N>(ctx);
+    let ms = edge_vec(&mut ctx.prng, N);
+    let mut rng = ScriptedRng::new(ctx.prng.gen(), book.clone());
+    let sig0 = wire::msg::<N>(&ms).sign(&mut rng, &kp);
+    let h = match book.dlog_g1(&sig0.sigma1()) { Some(h) => h, None => { ctx.broken("sigma1 is not the scripted G1 draw"); return; } };
+    let op = format!("ps-sign {} {} {} {}", hex_s(&kpd.x), hex_list(&kpd.ys), hex_s(&h), hex_list(&ms));
+    if !ctx.expect(&op, &sig_reals(&sig0)) { return; }
+    let (s1, s2) = (book.dlog_g1(&sig0.sigma1()).unwrap(), book.dlog_g1(&sig0.sigma2()).unwrap());
+    // randomize with r = 0
+    let mut sig = sig0;
+    let mut rng = ScriptedRng::new(ctx.prng.gen(), book.clone());
+    rng.force_scalars(&[Scalar::zero()]);
+    sig.randomize(&mut rng);
+    let op = format!("ps-rand {} {} 0", hex_s(&s1), hex_s(&s2));
+    if !ctx.expect(&op, &sig_reals(&sig)) { return; }
+    let _ = verify_check(ctx, kp.public_key(), &kpd.pk, &sig, &ms, Some(false), "randomized-by-zero");
+    let other = edge_vec(&mut ctx.prng, N);
+    let _ = verify_check(ctx, kp.public_key(), &kpd.pk, &sig, &other, Some(false), "randomized-by-zero-other-message");
+    // blind_and_randomize with r = 0, then unblind
+    let mut rng = ScriptedRng::new(ctx.prng.gen(), book.clone());
+    rng.force_scalars(&[Scalar::zero()]);
+    let bf = edge_scalar(&mut ctx.prng);
+    let bs = sig0.blind_and_randomize(&mut rng, wire::bf(&bf));
+    let sig = bs.unblind(wire::bf(&bf));
+    let op = format!("ps-blindrand {} {} 0 {}", hex_s(&s1), hex_s(&s2), hex_s(&bf));
+    if !ctx.expect(&op, &[Real::G1(bs.sigma1()), Real::G1(bs.sigma2())]) { return; }
+    let _ = verify_check(ctx, kp.public_key(), &kpd.pk, &sig, &ms, Some(false), "blind-randomized-by-zero");
+    // blind signing with u = 0
+    if let Some(sig) = blind_sign_path::<N>(ctx, &kp, &kpd, &ms, false, Some(Scalar::zero())) {
+        let _ = verify_check(ctx, kp.public_key(), &kpd.pk, &sig, &ms, Some(false), "blind-signed-with-u-zero");
+    }
+}
+
 /// raw (σ1, σ2) pairs under arbitrary (not keygen-shaped) public keys
 fn raw_case<const N: usize>(ctx: &mut Ctx, idx: usize) {
     if !ctx.begin_case(idx, &format!("ps-raw-N{}", N)) {
@@ -277,6 +316,8 @@ pub fn run(ctx: &mut Ctx) {
             crate::dispatch_n!(one_case, ctx, idx, n);
             idx += 1;
             crate::dispatch_n!(raw_case, ctx, idx, n);
+            idx += 1;
+            crate::dispatch_n!(degenerate_case, ctx, idx, n);
             idx += 1;
         }
     }
